@@ -21,6 +21,9 @@ theorem spawnOn_keeps (cid : Nat) (env : Env) (is : List Instr) (w : World) (hw 
   refine SOkN.modCmd (SOkN.newMeta hw) cid _ ?_
   intro _ hx; exact hx
 
+theorem Keeps.set_aborts {W : World} (h : SOk W) (l : List (Nat × Nat)) : Keeps W ({ W with aborts := l } : World) :=
+  Keeps.of_step h rfl (SOkN.of_same h rfl rfl rfl rfl)
+
 mutual
 theorem instantiate_keeps (env : Env) : (c : Cmd) → (w : World) → SOk w → Keeps w (instantiate env c w).2
   | .done, w, hw => by simp only [instantiate]; exact newCmd_keeps env _ w hw
@@ -37,9 +40,14 @@ theorem instantiate_keeps (env : Env) : (c : Cmd) → (w : World) → SOk w → 
     exact (k1.trans k2).trans (newCmd_keeps env _ _ k2.1)
   | .andC a b, w, hw => by
     simp only [instantiate]
-    have k1 := instantiate_keeps env a w hw
-    have k2 := instantiate_keeps env b _ k1.1
-    exact (k1.trans k2).trans (spawnOn_keeps _ env _ _ k2.1)
+    have k1 := instantiate_keeps env b w hw
+    have k2 := instantiate_keeps env a _ k1.1
+    have k3 := Keeps.set_aborts k2.1
+      ((instantiate env a (instantiate env b w).2).2.aborts.take w.aborts.length ++
+        (instantiate env a (instantiate env b w).2).2.aborts.drop (instantiate env b w).2.aborts.length ++
+        ((instantiate env a (instantiate env b w).2).2.aborts.drop w.aborts.length).take
+          ((instantiate env b w).2.aborts.length - w.aborts.length))
+    exact ((k1.trans k2).trans k3).trans (spawnOn_keeps _ env _ _ k3.1)
   | .all cs, w, hw => by
     simp only [instantiate]
     have k1 := instantiateAll_keeps env cs w hw
